@@ -159,6 +159,43 @@ type TreeCfg struct {
 	// WideP is the chance that a map gets 9..12 keys (Go switches map
 	// representation above 8 entries).
 	WideP float64
+	// BigP is the chance that a root map also gets bulk: a string of several
+	// kilobytes (files larger than one read buffer), a long list, a map with
+	// dozens of keys, a deep chain — size thresholds are a classic blind spot.
+	BigP float64
+}
+
+// Bulk adds large members to a root map.
+func (c TreeCfg) Bulk(r *Rand, m map[string]any) {
+	switch r.Intn(4) {
+	case 0:
+		n := PickAny(r, []int{600, 4096, 4097, 5000, 9000, 70000})
+		b := make([]byte, n)
+		for i := range b {
+			b[i] = "abcdefghij klmnopqrstuvwxyz"[(i*7+n)%27]
+		}
+		m["pad"] = string(b)
+	case 1:
+		n := PickAny(r, []int{33, 64, 65, 200})
+		l := make([]any, n)
+		for i := range l {
+			l[i] = i % 7
+		}
+		m["longlist"] = l
+	case 2:
+		n := PickAny(r, []int{17, 40, 70})
+		w := map[string]any{}
+		for i := 0; i < n; i++ {
+			w["k"+string(rune('a'+i%26))+string(rune('a'+i/26))] = i
+		}
+		m["widemap"] = w
+	default:
+		var v any = "leaf"
+		for i := 0; i < PickAny(r, []int{12, 30, 60}); i++ {
+			v = map[string]any{"d": v}
+		}
+		m["deep"] = v
+	}
 }
 
 var DefaultKeys = []string{"a", "b", "c", "d", "e", "f"}
@@ -225,6 +262,9 @@ func (c TreeCfg) Map(r *Rand, depth int) map[string]any {
 	for i := 0; i < n; i++ {
 		k := PickAny(r, keys)
 		m[k] = c.Tree(r, depth-1)
+	}
+	if depth == c.MaxDepth && c.BigP > 0 && r.Chance(c.BigP) {
+		c.Bulk(r, m)
 	}
 	return m
 }
